@@ -479,6 +479,14 @@ func faultOne(sc *faultScn, idx int) verdict {
 		if !fin || pan != nil || nerr != nil || nres != op.nextWant {
 			fail(&v, "C05:"+sc.Op+":recovery", "after time-out at byte %d and catch-up, the next exchange%s returned %q / %v (fin=%v pan=%v), expected %q", sc.K, reopened, nres, nerr, fin, pan, op.nextWant)
 		}
+
+		if v.OK {
+			// ... and so does the one after it (nothing of the timed-out operation is left to be tripped over later)
+			fin, pan = withWatchdog(8*time.Second, func() { nres, nerr = op.next(s) })
+			if !fin || pan != nil || nerr != nil || nres != op.nextWant {
+				fail(&v, "C05:"+sc.Op+":recovery-second", "after time-out at byte %d, catch-up and one good exchange, the exchange after it%s returned %q / %v (fin=%v pan=%v), expected %q", sc.K, reopened, nres, nerr, fin, pan, op.nextWant)
+			}
+		}
 	}
 
 	// sticky (C06): every later operation also fails, promptly
